@@ -2,7 +2,7 @@
 import re
 
 from .common import fkey, where, short, arg_is_local, enclosing_loop_next, follow_value, block_line, terminal_field
-from ..facts import op_place, op_const, AnchorLost
+from ..facts import op_place, op_const, AnchorLost, is_test_body
 from .. import flow
 
 PID = "C05"
@@ -256,7 +256,73 @@ def r4_single_unsubscribe(ctx):
             R.check(ok, "C05.R4", "%s:message-kind" % label, "the message is SubscriptionClosed/UnregisterNotification", "Subscription::%s sends %s" % (label, [flow.leaf_str(l) for l in lv]), where(c))
 
 
-RULES = [r1_classifier_agreement, r2_routing, r3_lag_and_close, r4_single_unsubscribe]
+def r5_close_messages_are_not_lossy(ctx):
+    """what the read task learns (a subscription lagged / closed -> SubscriptionClosed, an unsubscribe request to send) is
+    forwarded to the send task with the waiting `send`, kept as a pending future until there is room - never with the
+    lossy `try_send`; only the synchronous Drop of a Subscription may use try_send (the statement allows 'at most one'
+    there)."""
+    F, R = ctx.F, ctx.R
+    tr = ctx.tracer(follow_callers=False, follow_fields=False)
+    rt = F.one(r"^jsonrpsee_core::client::async_client::read_task::\{closure#0\}$")
+    R.fn(rt)
+    hb = rt.calls_to(r"async_client::handle_backend_messages$")
+    if not hb:
+        raise AnchorLost("handle_backend_messages call in read_task")
+    lossy = [c for c in rt.calls_to(r"mpsc::.*Sender::<.*>::try_send$") if "FrontToBack" in " ".join(c.ga) + (c.self_ty or "") + rt.locals[op_place(c.args[0])["l"]]["ty"]]
+    for c in lossy:
+        R.bad("C05.R5", "read_task:lossy-forward", "the read task forwards a message to the send task with try_send: when the request queue is full the SubscriptionClosed/unsubscribe message is dropped, so a lagging or closed subscription never ends and no unsubscribe request is sent", where(c))
+    sends = [c for c in rt.calls_to(r"mpsc::.*Sender::<.*>::send$") if "FrontToBack" in rt.locals[op_place(c.args[0])["l"]]["ty"]]
+    pushed = rt.calls_to(r"MaybePendingFutures::<.*>::push$")
+    ok = False
+    for c in sends:
+        if any(arg_is_local(rt, p_.args[1], c.dest["l"]) for p_ in pushed):
+            ok = True
+    R.check(ok and not lossy, "C05.R5", "read_task:forward-is-waiting-send", "messages from handle_backend_messages are forwarded with the waiting send, parked in the pending-futures set", "read_task does not park a waiting send for the messages produced by handle_backend_messages", where(hb[0]))
+    # the loop over `messages` forwards every element: the send is inside the loop over the Ok(messages) vector
+    # who may use the lossy try_send on the front-to-back queue at all
+    allowed = re.compile(r"^<jsonrpsee_core::client::Subscription<Notif> as std::ops::Drop>::drop$")
+    n = 0
+    for c in F.all_calls(r"mpsc::.*Sender::<.*>::try_send$"):
+        if c.body.crate != "jsonrpsee_core" or is_test_body(c.body):
+            continue
+        p0 = op_place(c.args[0])
+        if p0 is None or "FrontToBack" not in c.body.locals[p0["l"]]["ty"]:
+            continue
+        n += 1
+        R.check(bool(allowed.match(c.body.path)), "C05.R5", "try_send:%s" % fkey(c.body), "try_send on the request queue only in Drop for Subscription", "%s uses the lossy try_send on the client's request queue" % short(c.body.path), where(c))
+    R.floor("C05.R5", n, 1, "try_send sites on the front-to-back queue")
+
+
+def r6_refused_insert_is_pure(ctx):
+    """RequestManager::insert_* either inserts (Ok) or leaves both tables untouched (Err): no table mutation can be followed
+    by the refusal. A duplicate subscription id answered by the server must not disturb the live subscription's
+    id -> request mapping, otherwise its notifications are dropped as 'not active'."""
+    F, R = ctx.F, ctx.R
+    n = 0
+    MUT = r"HashMap::<.*>::(insert|remove|remove_entry|clear|retain)$|VacantEntry::<.*>::insert$|OccupiedEntry::<.*>::(insert|remove|remove_entry)$|Entry::<.*>::(or_insert|or_insert_with|or_default|and_modify|insert_entry)$"
+    for m in F.find(r"^jsonrpsee_core::client::async_client::manager::RequestManager::insert_\w+$"):
+        R.fn(m)
+        muts = m.calls_to(MUT)
+        errs = set()
+        for bi, blk in enumerate(m.blocks):
+            if bi not in m.reachable or blk.get("cleanup"):
+                continue
+            for st in blk["st"]:
+                if st["s"] == "assign" and st["rv"]["k"] == "agg" and st["rv"].get("variant") == "Err" and st["rv"].get("adt", "").startswith("std::result::Result"):
+                    errs.add(bi)
+        if not errs:
+            continue
+        n += 1
+        bad = [c for c in muts if any(m.can_reach(c.bb, e) for e in errs)]
+        R.check(not bad, "C05.R6", "%s:refusal-is-pure" % m.path.split("::")[-1], "%s mutates nothing on the path that refuses" % m.path.split("::")[-1], "%s changes a table (%s) and can still refuse afterwards: a refused duplicate overwrites the live entry, the live subscription's notifications are then dropped and its unsubscribe finds nothing" % (short(m.path), sorted({short(c.name()) for c in bad})), where(bad[0]) if bad else None)
+        # overwriting inserts are not used at all where a refusal exists
+        over = [c for c in m.calls_to(r"HashMap::<.*>::insert$")]
+        for c in over:
+            R.check(any(m.dominates(x.bb, c.bb) for x in m.calls_to(r"HashMap::<.*>::contains_key$")), "C05.R6", "%s:no-blind-overwrite" % m.path.split("::")[-1], "overwriting insert only after a contains_key test", "%s uses the overwriting HashMap::insert without a prior vacancy test" % short(m.path), where(c))
+    R.floor("C05.R6", n, 3, "RequestManager::insert_* functions with a refusal path")
+
+
+RULES = [r1_classifier_agreement, r2_routing, r3_lag_and_close, r4_single_unsubscribe, r5_close_messages_are_not_lossy, r6_refused_insert_is_pure]
 
 LEVEL_TEXT = (
     "Structural necessary conditions of the client's notification demultiplexing decided from the type-checked program: "
